@@ -10,6 +10,7 @@ import contextvars
 import selectors
 import time as _real_time
 import types
+import weakref
 
 EPOCH = 1_700_000_000.0
 
@@ -91,6 +92,20 @@ class VirtualLoop(asyncio.SelectorEventLoop):
 
     def time(self):
         return self._vclock.now
+
+    # In production every worker process owns its event loop, and AsyncIoAdapter.run() closes *that* loop's asynchronous generators
+    # when its clients are done. All simulated processes share this loop, so generators are tracked per simulated process.
+    def _asyncgen_firstiter_hook(self, agen):
+        super()._asyncgen_firstiter_hook(agen)
+        self.__dict__.setdefault("_agens_by_proc", {}).setdefault(current_proc.get(), weakref.WeakSet()).add(agen)
+
+    async def shutdown_asyncgens(self):
+        gens = list(self.__dict__.setdefault("_agens_by_proc", {}).pop(current_proc.get(), ()))
+        if not gens:
+            return
+        await asyncio.gather(*[g.aclose() for g in gens], return_exceptions=True)
+        for g in gens:
+            self._asyncgens.discard(g)
 
 
 class patched:
